@@ -151,11 +151,132 @@ fn gen_c13_enumerated(seed: u64) -> Option<Scenario> {
 }
 
 /// Run the history fault-free and place one fault in it.
+pub const ROLLBACK_POINTS: &[&str] = &["reorg.before", "reorg.restored", "reorg.after"];
+
+/// A history whose faulted update has to roll a reorganisation back: the crash
+/// lands before, inside or after the rollback, or while the new branch is
+/// being indexed on top of the restored savepoint.
+fn gen_c13_reorg(seed: u64, thorough: bool) -> Scenario {
+  let chain_seed = seed / 8;
+  let root = Rng::new(chain_seed);
+  let mut crng = root.fork("config");
+  let mut wrng = root.fork("workload");
+  let mut srng = root.fork("schedule");
+  let mut config = gen_config(&mut crng);
+  config.index_sats = crng.chance(1, 2);
+  config.index_addresses = crng.chance(1, 2);
+  config.index_runes = crng.chance(1, 2);
+  config.commit_interval = match crng.below(3) {
+    0 => 5000,
+    _ => 1 + crng.below(6) as u32,
+  };
+  config.savepoint_interval = 1 + crng.below(6) as u32;
+  config.max_savepoints = 2 + crng.below(3) as u32;
+  config.integration_test = false;
+  let f = Features::swarm(&everything_features(), &mut wrng);
+  let mut ops = Vec::new();
+  let mut height = 0u32;
+  for _ in 0..1 + srng.usize(2) {
+    let grow = 2 + srng.usize(if thorough { 30 } else { 16 });
+    ops.push(Op::Mine(gen_chain(&mut wrng, &f, grow)));
+    height += grow as u32;
+    ops.push(Op::Update(UpdateSpec {
+      lag: srng.below(32) as u32,
+      ..Default::default()
+    }));
+  }
+  // mostly within what the savepoints can undo
+  let span = config.savepoint_interval * (config.max_savepoints - 1);
+  let depth = match srng.below(5) {
+    0 => 1,
+    1..=3 => 1 + srng.below(u64::from(span.max(1))) as u32,
+    _ => 1 + srng.below(u64::from(span + 3)) as u32,
+  }
+  .min(height.max(1));
+  let blocks = gen_chain(&mut wrng, &f, depth as usize + 1 + srng.usize(4));
+  ops.push(Op::Reorg { depth, blocks });
+  ops.push(Op::Update(UpdateSpec {
+    lag: srng.below(32) as u32,
+    ..Default::default()
+  }));
+  let mut sc = Scenario {
+    seed,
+    profile: "C13/reorg".into(),
+    config,
+    ops,
+    server: None,
+  };
+
+  // probe: what does the update after the reorganisation do?
+  let mut frng = Rng::new(seed).fork("fault-placement");
+  let mut ex = Exec::new(&sc.config, sc.seed);
+  let mut outcome = None;
+  for op in &sc.ops {
+    match op {
+      Op::Mine(b) => ex.mine(b),
+      Op::Reorg { depth, blocks } => {
+        ex.reorg(*depth, blocks);
+      }
+      Op::Update(u) => {
+        let r = ex.update(u);
+        if r.result.is_err() {
+          outcome = None;
+          break;
+        }
+        outcome = Some(r.outcome);
+      }
+      _ => {}
+    }
+  }
+  ex.finish();
+  let Some(outcome) = outcome else {
+    return sc;
+  };
+  let recovery = *frng.pick(&[Recovery::Clean, Recovery::Torn, Recovery::AllWritten]);
+  let n = outcome.disk_ops.max(1);
+  let rollback_points: Vec<(&String, &u32)> = outcome
+    .points
+    .iter()
+    .filter(|(k, _)| ROLLBACK_POINTS.contains(&k.as_str()))
+    .collect();
+  let fault = match frng.below(10) {
+    0..=3 if !rollback_points.is_empty() => {
+      let (name, count) = rollback_points[frng.usize(rollback_points.len())];
+      DiskFault::CrashAtPoint {
+        point: name.clone(),
+        nth: frng.below(u64::from(*count)) as u32,
+        recovery,
+      }
+    }
+    // the rollback is at the start of the update
+    4..=6 => DiskFault::CrashAtOp {
+      op: 1 + frng.below(n.min(40)),
+      recovery,
+    },
+    7 => DiskFault::EioAtOp {
+      op: 1 + frng.below(n.min(60)),
+    },
+    _ => DiskFault::CrashAtOp {
+      op: 1 + frng.below(n),
+      recovery,
+    },
+  };
+  if let Some(Op::Update(u)) = sc.ops.last_mut() {
+    u.disk_fault = Some(fault);
+  }
+  sc
+}
+
 pub fn gen_c13(seed: u64, thorough: bool) -> Scenario {
   if thorough
     && let Some(sc) = gen_c13_enumerated(seed)
   {
     return sc;
+  }
+  // a quarter of the histories (eight placements share one) contain a
+  // reorganisation that the faulted update has to roll back
+  if (seed / 8) % 4 == 3 {
+    return gen_c13_reorg(seed, thorough);
   }
   let mut sc = base_scenario(seed, thorough);
   let mut frng = Rng::new(seed).fork("fault-placement");
@@ -267,7 +388,269 @@ fn reference_at(
   d
 }
 
+/// Uninterrupted index of the first `count` blocks of the best chain of the
+/// world that `log` describes.
+fn reference_in_world(
+  config: &Config,
+  seed: u64,
+  log: &[NodeEvent],
+  count: u32,
+  ctx: &mut Ctx,
+) -> Option<Dump> {
+  let mut ex = Exec::new(config, seed);
+  let len = ex.sim.snapshot(|s| {
+    for e in log {
+      s.world.apply_event(e);
+    }
+    s.world.best.len() as u32
+  });
+  if count > len {
+    ex.finish();
+    return None;
+  }
+  let r = ex.update(&UpdateSpec {
+    lag: 31,
+    height_limit: if count == len { None } else { Some(count) },
+    ..Default::default()
+  });
+  let d = if fault_free_update_ok(&r, ctx) {
+    ex.index().verif_dump().ok().map(|d| oracle::masked(&d))
+  } else {
+    None
+  };
+  ex.finish();
+  d
+}
+
+/// C13 with a reorganisation: the faulted update rolls back to a savepoint.
+fn run_c13_reorg(sc: &Scenario) -> RunReport {
+  let start = std::time::Instant::now();
+  let mut ctx = Ctx {
+    property: "C13".into(),
+    report: RunReport {
+      seed: sc.seed,
+      property: "C13".into(),
+      profile: sc.profile.clone(),
+      ..Default::default()
+    },
+    oracle_rng: Rng::new(sc.seed).fork("oracle"),
+  };
+  let mut ex = Exec::new(&sc.config, sc.seed);
+  let mut log_before_reorg: Vec<NodeEvent> = Vec::new();
+  let mut after_restart: Option<(u32, Dump)> = None;
+  let mut fault_seen = false;
+  let mut fault_kind = String::new();
+  let mut unrecoverable = false;
+  let mut rolled_back = 0u64;
+  let mut stop = false;
+
+  for op in &sc.ops {
+    if stop {
+      break;
+    }
+    match op {
+      Op::Mine(b) => ex.mine(b),
+      Op::Reorg { depth, blocks } => {
+        log_before_reorg = ex.sim.snapshot(|s| s.world_log.clone());
+        ex.reorg(*depth, blocks);
+      }
+      Op::Update(u) if u.disk_fault.is_none() => {
+        let r = ex.update(u);
+        rolled_back += u64::from(r.outcome.points.get("reorg.after").copied().unwrap_or(0));
+        if r.unrecoverable {
+          unrecoverable = true;
+          stop = true;
+        } else if !fault_free_update_ok(&r, &mut ctx) {
+          stop = true;
+        }
+      }
+      Op::Update(u) => {
+        let r = ex.update(u);
+        rolled_back += u64::from(r.outcome.points.get("reorg.after").copied().unwrap_or(0));
+        if !r.panics.is_empty() {
+          ctx.report.violations.push(v(
+            "C13",
+            "panic_on_fault",
+            format!("{:?} -> panics {:?}", u.disk_fault, r.panics),
+          ));
+          stop = true;
+          continue;
+        }
+        if r.outcome.budget_exhausted {
+          ctx.report.inconclusive = Some("step budget exhausted".into());
+          stop = true;
+          continue;
+        }
+        let fault = u.disk_fault.as_ref().unwrap();
+        let fired = match fault {
+          DiskFault::CrashAtOp { .. } | DiskFault::CrashAtPoint { .. } => r.outcome.crashed,
+          DiskFault::EioAtOp { .. } | DiskFault::Enospc { .. } => r.result.is_err() && !r.unrecoverable,
+        };
+        if !fired {
+          if r.unrecoverable {
+            unrecoverable = true;
+            stop = true;
+          } else if !fault_free_update_ok(&r, &mut ctx) {
+            stop = true;
+          }
+          continue;
+        }
+        fault_seen = true;
+        let during = if r.outcome.points.contains_key("reorg.after") {
+          "after_rollback"
+        } else if r.outcome.points.contains_key("reorg.before") {
+          "inside_rollback"
+        } else {
+          "before_rollback"
+        };
+        fault_kind = match fault {
+          DiskFault::CrashAtOp { recovery, .. } => format!("reorg.{during}.crash_at_op.{recovery:?}"),
+          DiskFault::CrashAtPoint { point, recovery, .. } => format!("reorg.crash_at_point.{point}.{recovery:?}"),
+          DiskFault::EioAtOp { .. } => format!("reorg.{during}.eio"),
+          DiskFault::Enospc { .. } => format!("reorg.{during}.enospc"),
+        };
+        match fault {
+          DiskFault::CrashAtOp { recovery, .. } | DiskFault::CrashAtPoint { recovery, .. } => ex.crash(*recovery),
+          _ => ex.close(),
+        }
+        let drop_panics = crate::exec::take_panics();
+        if !drop_panics.is_empty() {
+          ctx.report.violations.push(v(
+            "C13",
+            "panic_on_fault",
+            format!("while shutting down after {fault:?}: {drop_panics:?}"),
+          ));
+          stop = true;
+          continue;
+        }
+        if let Err(e) = ex.open() {
+          ctx.report.violations.push(v("C13", "cannot_reopen", format!("after {fault:?}: {e}")));
+          stop = true;
+          continue;
+        }
+        let count = ex.index().block_count().unwrap_or(0);
+        match ex.index().verif_dump() {
+          Ok(d) => after_restart = Some((count, oracle::masked(&d))),
+          Err(e) => {
+            ctx.report.violations.push(v(
+              "C13",
+              "unreadable_after_restart",
+              format!("after {fault:?}: {e:#}"),
+            ));
+            stop = true;
+            continue;
+          }
+        }
+        // resume on the unchanged node: up to three polls
+        let mut last = None;
+        for _ in 0..3 {
+          let r2 = ex.update(&UpdateSpec {
+            lag: u.lag,
+            ..Default::default()
+          });
+          rolled_back += u64::from(r2.outcome.points.get("reorg.after").copied().unwrap_or(0));
+          if !r2.panics.is_empty() || r2.outcome.budget_exhausted {
+            last = Some(format!("panics {:?}, budget exhausted {}", r2.panics, r2.outcome.budget_exhausted));
+            break;
+          }
+          match &r2.result {
+            Ok(()) => {
+              last = None;
+              break;
+            }
+            Err(_) if r2.unrecoverable => {
+              unrecoverable = true;
+              last = None;
+              break;
+            }
+            Err(e) => last = Some(e.clone()),
+          }
+        }
+        if let Some(e) = last {
+          ctx.report.violations.push(v(
+            "C13",
+            "cannot_resume",
+            format!("after {fault:?} during a reorganisation and restart: {e}"),
+          ));
+          stop = true;
+        }
+      }
+      _ => {}
+    }
+  }
+
+  let mut final_digest = 0;
+  let mut resumed: Option<(u32, Dump)> = None;
+  if !stop && !unrecoverable && ex.is_open() {
+    if let Ok(d) = ex.index().verif_dump() {
+      let m = oracle::masked(&d);
+      final_digest = oracle::digest(&m);
+      resumed = Some((ex.index().block_count().unwrap_or(0), m));
+    }
+  }
+  let (full_log, tip_count) = ex.sim.snapshot(|s| (s.world_log.clone(), s.world.best.len() as u32));
+  ctx.report.faults.insert(format!("fired.{fault_kind}"), u64::from(fault_seen));
+  ctx.report.facts.insert("c13.reorg.rollbacks".into(), rolled_back);
+  ctx.report.facts.insert("c13.reorg.unrecoverable".into(), u64::from(unrecoverable));
+  let facts = std::mem::take(&mut ctx.report.facts);
+  let report = finish_report(ex, std::mem::take(&mut ctx.report), sc, final_digest);
+  ctx.report = report;
+  ctx.report.facts.extend(facts);
+
+  if fault_seen && ctx.report.violations.is_empty() && ctx.report.harness_error.is_none() {
+    if let Some((count, dump)) = &after_restart {
+      // a fully committed height of the abandoned or of the new best chain
+      let on_new = reference_in_world(&sc.config, sc.seed, &full_log, *count, &mut ctx);
+      let on_old = reference_in_world(&sc.config, sc.seed, &log_before_reorg, *count, &mut ctx);
+      ctx.report.checks += 1;
+      if on_new.as_ref() != Some(dump) && on_old.as_ref() != Some(dump) {
+        let detail = on_new
+          .as_ref()
+          .or(on_old.as_ref())
+          .and_then(|r| oracle::diff(r, dump))
+          .unwrap_or_default();
+        ctx.report.violations.push(v(
+          "C13",
+          "inconsistent_after_restart",
+          format!(
+            "after a crash around a rollback the index reopened at {count} blocks and equals neither the uninterrupted index of that height on the abandoned chain nor on the new one: {detail}"
+          ),
+        ));
+      }
+    }
+    if ctx.report.violations.is_empty()
+      && let Some((count, dump)) = &resumed
+    {
+      ctx.report.checks += 1;
+      if *count != tip_count {
+        ctx.report.violations.push(v(
+          "C13",
+          "tip_not_reached",
+          format!("index at {count} blocks, best chain has {tip_count}"),
+        ));
+      } else if let Some(reference) = reference_in_world(&sc.config, sc.seed, &full_log, tip_count, &mut ctx)
+        && &reference != dump
+      {
+        let detail = oracle::diff(&reference, dump).unwrap_or_default();
+        ctx.report.violations.push(v(
+          "C13",
+          "resumed_result_differs",
+          format!("after crash, restart and rollback the index differs from an uninterrupted index of the best chain: {detail}"),
+        ));
+      }
+    } else if unrecoverable {
+      ctx.report.checks += 1;
+    }
+  }
+  ctx.report.nontrivial = fault_seen && ctx.report.checks >= 2;
+  ctx.report.wall_us = start.elapsed().as_micros() as u64;
+  ctx.report
+}
+
 pub fn run_c13(sc: &Scenario) -> RunReport {
+  if sc.profile.starts_with("C13/reorg") {
+    return run_c13_reorg(sc);
+  }
   let start = std::time::Instant::now();
   let mut ctx = Ctx {
     property: "C13".into(),
